@@ -82,9 +82,49 @@ Proof.
               try congruence; try lia; eauto; fail).
     (* LTick: no caller whose deadline is reached sits in a select *)
     destruct (Compare_dec.le_lt_dec (nitems s) j) as [Hge|Hlt].
-    - rewrite (Hn _ Hge). exact I.
-    - pose proof (existsb_seq_false _ _ Heqb j Hlt) as Hu. cbv beta in Hu. unfold urgent, reached in Hu.
+    + rewrite (Hn _ Hge). exact I.
+    + pose proof (existsb_seq_false _ _ Heqb j Hlt) as Hu. cbv beta in Hu. unfold urgent, reached in Hu.
       destruct (i_pc (items s j)); try exact I;
-        repeat match goal with H : _ /\ _ |- _ => destruct H end; repeat split; intros; inst_dl; try lia;
+        repeat match goal with H : _ /\ _ |- _ => destruct H end; repeat split; intros; inst_dl; try lia; try assumption;
         match goal with E : i_dl _ = Some _ |- _ => rewrite E in Hu end; lia.
 Qed.
+
+(* ---- C. every work item is in at most one place; overflow items were never written; one token per item ----------- *)
+Definition cnt (l : list nat) (id : nat) : nat := count_occ Nat.eq_dec l id.
+Definition hW (s : st) (id : nat) : nat := match wr s with WHold x => if Nat.eqb x id then 1%nat else 0%nat | _ => 0%nat end.
+Definition hR (s : st) (id : nat) : nat := match rd s with RHold x => if Nat.eqb x id then 1%nat else 0%nat | _ => 0%nat end.
+(* number of places (chW, the writer's hand, chR, the reader's hand) holding item id *)
+Definition infl (s : st) (id : nat) : nat := (cnt (chW s) id + hW s id + cnt (chR s) id + hR s id)%nat.
+
+Definition waitish (p : pc) : Prop := match p with PWait | PRet RTimeout _ => True | _ => False end.
+Definition early (p : pc) : Prop := match p with PNone | PEnq | PSubst => True | _ => False end.
+Definition ret_overflow (p : pc) : Prop := match p with PRet ROverflow _ => True | _ => False end.
+
+Definition itemC (s : st) (id : nat) : Prop :=
+  let it := items s id in
+  (infl s id <= 1)%nat /\
+  ((1 <= infl s id)%nat -> i_done it = None /\ waitish (i_pc it)) /\
+  ((1 <= cnt (chW s) id)%nat -> i_sent it = false) /\
+  (early (i_pc it) -> i_sent it = false /\ i_done it = None) /\
+  ((i_done it = Some ROverflow \/ ret_overflow (i_pc it)) -> i_sent it = false) /\
+  (i_signals it <= 1) /\ (i_done it = None <-> i_signals it = 0).
+
+Lemma cnt_app l1 l2 id : cnt (l1 ++ l2) id = (cnt l1 id + cnt l2 id)%nat.
+Proof. apply count_occ_app. Qed.
+Lemma cnt_cons x l id : cnt (x :: l) id = ((if Nat.eqb x id then 1 else 0) + cnt l id)%nat.
+Proof. unfold cnt. cbn. destruct (Nat.eq_dec x id), (Nat.eqb_spec x id); try contradiction; reflexivity. Qed.
+Lemma cnt_nil id : cnt [] id = 0%nat.
+Proof. reflexivity. Qed.
+
+Lemma invC c : forall s, reach c s -> forall id, itemC s id.
+Proof.
+  apply (reach_inv c (fun s => forall id, itemC s id)).
+  - intros id. unfold itemC, infl, hW, hR. cbn. intuition (try lia; try congruence).
+  - intros s l s1 HC H. destruct l; step_cases H; unfold stopping in *; simp_st.
+    all: intros j; pose proof (HC j) as Hj; unfold itemC, infl, hW, hR in *; simp_st; use_eqs;
+         rewrite ?cnt_app, ?cnt_cons, ?cnt_nil in *; simp_st.
+    all: try exact Hj.
+    all: split_ids; simp_st; use_eqs; unfold waitish, early, ret_overflow in *.
+    all: try (crush_match; simp_st; intuition (try lia; try congruence); fail).
+    Show.
+Admitted.
